@@ -49,7 +49,7 @@ def worker_main(argv):
     ap.add_argument("--deadline", type=float, required=True)
     ap.add_argument("--tier", default="quick")
     ap.add_argument("--samples", type=int, default=0)
-    ap.add_argument("--wall", type=float, default=30.0)
+    ap.add_argument("--wall", type=float, default=90.0)
     a = ap.parse_args(argv)
     # baton-passing threads hand over much faster when they share one core
     try:
